@@ -327,7 +327,20 @@ static Plan gen_plan(uint64_t seed, const std::string& profile_name, uint64_t ru
       }
       continue;
     }
-    if (ready < 0 && !p.racy) continue;
+    if (ready < 0 && !p.racy) {
+      // a component that has not initialised anything yet calls in anyway (F2c in the middle of a session, typically
+      // while the OTHER precision's registry is populated)
+      if (r.bern(p.profile == "C16" ? 0.5 : 0.15)) {
+        int L0 = r.range(1, 2);
+        for (int i = 0; i < L0; ++i) {
+          Step s = gen_op(r, P, c, nh, p, false);
+          static const int mops[] = {OP_GET_DIM, OP_GET_NAME, OP_GET, OP_SET, OP_EVAL, OP_SANITY, OP_INIT_PARAM, OP_PURGE, OP_GET_VEC, OP_SET_VEC, OP_DISPLAY_PARAM, OP_DISPLAY_VEC, OP_PREINIT_CALL, OP_SELECT};
+          s.op = mops[r.uni(14)];
+          p.steps.push_back(s);
+        }
+      }
+      continue;
+    }
     int L = r.range(1, 6);
     int h = r.uni(nh);
     if (!inited[(size_t)c][(size_t)h]) h = ready >= 0 ? ready : h;
